@@ -122,3 +122,26 @@ PROPS['C10'] = dict(
     assumptions=['identifiers that collide with keywords are rendered delimited'],
     trusted_base=['models Mkdb/Model/Scan.lean, Mkdb/Model/Parse.lean; expected-tree generator harness/cmd/h/sql.go'],
 )
+
+PROPS['C20'] = dict(
+    lean=['Mkdb.Props.C20'],
+    facts=['panics.cmd/console.*', 'skeleton.cmd/console.runTerminal'],
+    runs=[dict(cmd='console', proto='console')],
+    claim='Proof: theorems about the model of Terminal.handleKey (printable keys, Enter) and splitStatements (a left fold of a '
+          'quote-tracking automaton): C20_enter_complete / C20_enter_incomplete / C20_semicolon_in_quote, and - when '
+          'Mkdb/Proofs/Console.lean is in the audit list - split_wf (a buffer of well-formed statements separated by blanks splits into '
+          'exactly those statements, a semicolon inside quotes does not split), run_eq_split (for every key sequence of printable keys '
+          'and Enters the concatenation of all submissions equals the quote-aware split of everything typed with each Enter read as '
+          'one space) and C20_submit (the console hands over exactly the typed statements, once each, in order). Tie: the model is '
+          'compared with the real Terminal.ReadLine (in-package driver) on statement lists with semicolons / other quotes / spaces in '
+          'literals under every-space and random line breakings, several statements per line, unfinished input, blank lines, ignored '
+          'control keys and a line at the 4096-rune limit; the judge compares the submissions with the typed statement list.',
+    note='Trusted: Lean kernel, hand-written console model, UTF-8 decoding of the byte stream, strings.TrimSpace (modelled as trimming '
+         'Unicode White_Space). Domain: printable keys and Enter; editing keys, history and bracketed paste are outside the model; '
+         'keys beyond the terminal\'s 4096-rune line limit are dropped by the terminal (stated bound).',
+    rule='pairs of statements from a 19-statement pool (literals with ; " \' ` \\ and unicode) x {no breaks, break at every space}; '
+         'random lists of 1-5 statements with random breakings; junk key streams. Non-trivial: a statement with a semicolon inside a '
+         'literal; distinct by key stream.',
+    assumptions=['keys are delivered as UTF-8; tab/LF are not printable keys and are ignored by the terminal'],
+    trusted_base=['model Mkdb/Model/Console.lean hand-written from cmd/console/go_terminal.go'],
+)
